@@ -38,6 +38,11 @@ def _mk_model(dt):
 
             def on_ping(self, event):
                 self.model.hlog.append((self.model.tick_running, self.id, event.data))
+
+            def act(self, time, round_no, step_no):
+                kp = getattr(self.model, "kill_plan", None)
+                if kp and kp[0] == self.id:
+                    self.model.delete_agent(kp[1])
         return A
 
     m = LogModel(starttime=0, stoptime=50, dt=dt, name="c11", scheduler=SimultaneousScheduler(), data_collector=DataCollector())
@@ -55,8 +60,9 @@ class Ref:
         self.issued = 0
         self.tick = 0           # index of the next step to run
         self.seq = 0
-        self.pending = []       # [due, receiver, seq, sent_tick]
+        self.pending = []       # [due, receiver, seq, sent_tick, incarnation of the receiver id at send time]
         self.crashed = False
+        self.inc = {}           # id -> how many agents have carried this id (ids must never be reused)
 
 
 class System:
@@ -70,9 +76,14 @@ class System:
         ref = Ref()
         for t in ("a", "a", "b"):
             ag = m.create_agent(t, None)
-            ref.live[ag.id] = t
-            ref.issued = max(ref.issued, ag.id + 1)
+            self._born(ref, ag.id, t)
         return m, ref
+
+    @staticmethod
+    def _born(ref, i, t):
+        ref.live[i] = t
+        ref.inc[i] = ref.inc.get(i, 0) + 1
+        ref.issued = max(ref.issued, i + 1)
 
     def enabled(self, ref):
         if ref.crashed:
@@ -84,6 +95,11 @@ class System:
             for d in self.delays:
                 ops.append(["send", i, d])
         live = list(ref.live)
+        if ref.pending:
+            for pos, actor in enumerate(live[:3]):
+                ops.append(["kstep", actor, actor])
+                if pos > 0:
+                    ops.append(["kstep", actor, live[0]])
         two = []
         if live:
             two.append(live[0])
@@ -110,7 +126,7 @@ class System:
         else:
             ev = DelayedEvent("ping", 0, receiver, delay, data=ref.seq)
         m.enqueue_event(ev)
-        ref.pending.append([self._due(ref, delay), receiver, ref.seq, ref.tick])
+        ref.pending.append([self._due(ref, delay), receiver, ref.seq, ref.tick, ref.inc.get(receiver, 0) if receiver in ref.live else -1])
 
     def apply(self, m, ref, op):
         viol = []
@@ -118,8 +134,7 @@ class System:
         try:
             if k == "create":
                 ag = m.create_agent(op[1], None)
-                ref.live[ag.id] = op[1]
-                ref.issued = max(ref.issued, ag.id + 1)
+                self._born(ref, ag.id, op[1])
             elif k == "delete":
                 m.delete_agent(op[1])
                 ref.live.pop(op[1], None)
@@ -127,8 +142,7 @@ class System:
                 m.configure_agents([{"name": "a", "count": 2}])
                 ref.live.clear()
                 for a in m.agents:
-                    ref.live[a.id] = a.agent_type
-                    ref.issued = max(ref.issued, a.id + 1)
+                    self._born(ref, a.id, a.agent_type)
             elif k == "send":
                 self._send(m, ref, op[1], op[2])
             elif k == "send2":
@@ -136,6 +150,12 @@ class System:
                 self._send(m, ref, op[1], op[2])
             elif k == "step":
                 viol += self._step(m, ref)
+            elif k == "kstep":
+                # during this step agent op[1] deletes agent op[2] (itself or an agent created before it) in its act()
+                m.kill_plan = (op[1], op[2])
+                viol += self._step(m, ref)
+                m.kill_plan = None
+                ref.live.pop(op[2], None)
         except Exception as e:
             viol.append(("op-raises/%s/%s" % (k, type(e).__name__), repr(e)))
         return viol
@@ -144,7 +164,8 @@ class System:
         viol = []
         T = ref.tick
         due = [p for p in ref.pending if p[0] == T]
-        expected = [(p[1], p[2], p[3]) for p in due if p[1] in ref.live]
+        # due events whose addressee (the agent that carried the id when the event was sent) is still alive
+        expected = [(p[1], p[2], p[3]) for p in due if p[1] in ref.live and p[4] == ref.inc.get(p[1], 0)]
         m.tick_running = T
         before = len(m.hlog)
         raised = None
